@@ -2,7 +2,7 @@ use clap::Parser;
 use std::fs;
 use std::path::PathBuf;
 use tauri_typegen::analysis::CommandAnalyzer;
-use tauri_typegen::build::GenerationCache;
+use tauri_typegen::build::{GenerationCache, OutputManager};
 use tauri_typegen::generators::create_generator;
 use tauri_typegen::interface::{
     print_dependency_visualization_info, print_usage_info, CargoCli, CargoSubcommands,
@@ -259,6 +259,10 @@ fn run_generate(
         &config,
     )?;
     reporter.complete_step(Some(&format!("Generated {} files", generated_files.len())));
+
+    // Like the build script: files of an earlier run that this run no longer writes (events.ts
+    // after the last emit is gone) do not stay behind
+    OutputManager::new(&config.output_path).cleanup_old_files(&generated_files)?;
 
     // Generate dependency visualization if requested
     if config.should_visualize_deps() {
